@@ -34,6 +34,9 @@ Definition classify (field typ : string) : fclass :=
   else if one_of ["serialize.Serializer"; "sync.Mutex"; "sync.RWMutex"; "*log.Logger";
                   "*github.com/tendermint/tendermint/store.BlockStore"] typ then Inert
   else if String.eqb typ "[]byte" && has_sub "refix" field then Inert
+  else if one_of ["app.App.Context"; "app.App.abci"; "app.App.genesisDoc"; "app.App.name"; "app.App.node";
+                  "app.App.nodeName"; "app.App.sdk"] field then Root
+  else if String.eqb field "app.App.header" then PerBlock   (* assigned from the request at every BeginBlock *)
   else if prefix_of "app.context." field then Root
   else if one_of ["data/governance.ProposalMasterStore.Proposal"; "data/governance.ProposalMasterStore.ProposalFund";
                   "data/governance.ProposalMasterStore.ProposalVote"; "data/network_delegation.MasterStore.Deleg";
